@@ -278,4 +278,5 @@ func runC09(e *Engine, r *Report) {
 	ruleLastBatchCache(e, r)
 	ruleLogReaderRebase(e, r)
 	ruleTanIndexAllNodes(e, r)
+	ruleAppendSetsRange(e, r)
 }
